@@ -323,6 +323,49 @@ a, b = [1, 2, 3]
     ("none-attribute", '''
 None.links
 ''', "raise AttributeError"),
+    ("match-statement", '''
+def f(x):
+    match x:
+        case 0 | 1:
+            return "small"
+        case [a, b]:
+            return ("pair", a, b)
+        case str() as s_:
+            return ("str", s_)
+        case None:
+            return "none"
+        case _:
+            return "other"
+RESULT = (f(1), f([1, 2]), f("z"), f(None), f(3.5))
+''', "('small', ('pair', 1, 2), ('str', 'z'), 'none', 'other')"),
+    ("with-suppress-and-return-through-with", '''
+import contextlib
+log = []
+class CM:
+    def __enter__(self): log.append("in"); return self
+    def __exit__(self, t, e, tb): log.append("out"); return False
+def f():
+    with CM():
+        return 1
+def g():
+    with contextlib.suppress(KeyError):
+        {}["k"]
+        log.append("unreached")
+    return "after"
+RESULT = (f(), g(), log)
+''', "(1, 'after', ['in', 'out'])"),
+    ("lru-cache-defaultdict-partial", '''
+import functools, collections
+calls = []
+@functools.lru_cache(maxsize=None)
+def sq(x):
+    calls.append(x)
+    return x * x
+d = collections.defaultdict(list)
+d["a"].append(1); d["a"].append(2)
+p = functools.partial(lambda a, b: a - b, 10)
+RESULT = (sq(3), sq(3), calls, dict(d), p(4))
+''', "(9, 9, [3], {'a': [1, 2]}, 6)"),
     ("json-canonical", '''
 import json
 RESULT = json.dumps({"b": 1, "a": 2}, sort_keys=True) == json.dumps({"a": 2, "b": 1}, sort_keys=True), json.dumps({"a": 1}, sort_keys=True) == json.dumps({"a": 2}, sort_keys=True)
